@@ -15,6 +15,9 @@ Inductive hmode := HClaude | HGemini | HCursor.
 (* regenerated from the decorator of _load_handler on every run (32 today) *)
 Definition maxsize : nat := LRU_MAXSIZE.
 
+(* the components of the process state (the four places of the header comment) *)
+Inductive comp := CLru | CMode | CLogCfg | CLogDis.
+
 Section Cache.
   Variable value : Type.                 (* an imported handler module (or None after ImportError) *)
   Variable load : str -> value.          (* importlib.import_module(".<name>", "dippy.cli"): deterministic *)
@@ -119,6 +122,36 @@ Section Cache.
     end.
 
   Definition after (h : list query) (s : state) : state := fold_left (fun s q => fst (step s q)) h s.
+
+  (* What one call leaves behind (the residue oracle of harness/c18.py measures exactly this on the real
+     process: it snapshots every object reachable from the dippy modules before and after each call).
+     The handler cache is compared by its keys in order (under Inv the values are a function of the keys). *)
+  Fixpoint strs_eqb (a b : list str) : bool :=
+    match a, b with
+    | [], [] => true
+    | x :: a', y :: b' => str_eqb x y && strs_eqb a' b'
+    | _, _ => false
+    end.
+  Definition hmode_eqb (a b : hmode) : bool :=
+    match a, b with HClaude, HClaude | HGemini, HGemini | HCursor, HCursor => true | _, _ => false end.
+  Definition logcfg_eqb (a b : option (str * bool)) : bool :=
+    match a, b with
+    | None, None => true
+    | Some (p, f), Some (p', f') => str_eqb p p' && Bool.eqb f f'
+    | _, _ => false
+    end.
+  Definition changed (s s' : state) : list comp :=
+    (if strs_eqb (map fst (lru s)) (map fst (lru s')) then [] else [CLru]) ++
+    (if hmode_eqb (mode s) (mode s') then [] else [CMode]) ++
+    (if logcfg_eqb (logcfg s) (logcfg s') then [] else [CLogCfg]) ++
+    (if Bool.eqb (logdis s) (logdis s') then [] else [CLogDis]).
+  Definition residue (s : state) (q : query) : list comp := changed s (fst (step s q)).
+  (* per call of a history: what it changed *)
+  Fixpoint residues (s : state) (h : list query) : list (list comp) :=
+    match h with
+    | [] => []
+    | q :: r => residue s q :: residues (fst (step s q)) r
+    end.
 
   (* the hit/miss sequence of a trace of _load_handler calls (what cache_info() counts) *)
   Fixpoint trace (c : cache) (ms : list str) : list bool * cache :=
